@@ -31,6 +31,9 @@ def scenarios(rng, tier):
     # second pass of a two-pass VBR encode (the recode loop runs only there) with a QP range rate control wants to leave
     for (lo, hi, tbr) in ((4, 20, 100000), (30, 40, 3000000)) + (((10, 25, 50000),) if tier == 'thorough' else ()):
         out.append(dict(base, n=60, content=1, twopass=1, **{'f:enc_mode': 8, 'f:rate_control_mode': 1, 'f:min_qp_allowed': lo, 'f:max_qp_allowed': hi, 'f:target_bit_rate': tbr}))
+    # per-picture QP supplied by the application (use_qp_file): values below the minimum (0), inside and at the top of the range; bounds default and tight
+    out.append(dict(base, n=12, qpfly=1, **{'f:enc_mode': 8, 'f:use_qp_file': 1}))
+    out.append(dict(base, n=12, qpfly=1, content=1, **{'f:enc_mode': 8, 'f:use_qp_file': 1, 'f:hierarchical_levels': 3}))
     for qp in (20, 50, 63, 1):
         out.append(dict(base, n=10, **{'f:enc_mode': 8, 'f:qp': qp, 'f:use_fixed_qindex_offsets': 1}))     # fixed QP, no scaling: exact index
         out.append(dict(base, n=10, **{'f:enc_mode': 8, 'f:qp': qp}))
